@@ -60,7 +60,8 @@ func (c *Ctx) ord11() {
 						} else {
 							st = 1
 						}
-					case isCallTo(e, disc) && disc != nil && len(e.Args) == 2:
+					case isCallTo(e, disc) && disc != nil && len(e.Args) >= 2:
+						// (the amount is the first argument behind the receiver, whatever else is passed along)
 						if roleKey(e.Args[1]) == "BigMessage.Size" || strings.HasSuffix(roleKey(e.Args[1]), ".Size") {
 							flushed = true
 							if st == 3 {
